@@ -613,7 +613,7 @@ theorem progress (cfg : Cfg) (progs : List (List BP)) (hs : safeTable cfg progs 
         simp only [stEnabled]
         cases p with
         | ctxSelect => rfl
-        | sleep b => simpa [BP.guarded, opEnabled] using hg
+        | sleep b => simp [BP.guarded] at hg
         | send ch g => simp only [BP.guarded] at hg; simp [opEnabled, hg]
         | recv ch g => simp only [BP.guarded] at hg; simp [opEnabled, hg]
         | lock m f => simpa [BP.guarded, opEnabled] using hg
